@@ -1,6 +1,9 @@
 // C14 — exhaustive part: every weak order of the cells of short lines and small rectangles.
 // A case is one block of weak orders: (number k of distinct levels, levels of the first p cells); the union of the blocks
 // of a config is the set of ALL weak orders of that shape (spec.py gives each config exactly num_blocks() cases).
+// Second family (configs *_lv): every map cells -> {0..L-1} ("level map", i.e. every weak order with at most L levels) of
+// shapes with SEVERAL interior cells (3x4, 4x3, 4x4) and of lines of 9..12 cells; a block fixes the levels of the first p cells.
+// In a quarter of the blocks the top level is +inf and / or the bottom level is -inf (the routines only compare values).
 #include "c14_common.h"
 
 namespace {
@@ -14,24 +17,38 @@ int prefix_len(int n) { return n <= 5 ? 1 : n <= 7 ? 2 : 3; }
 // blocks are visited in a scrambled order so that contiguous shards of case numbers have similar cost
 long scramble(long k, long total) { return (long)(((__int128)k * 1000003 + 12345) % total); }
 
-struct Transform { double off, scale; double operator()(int rank) const { return (rank + off) * scale; } };
-Transform pick_transform(vh::Rng& r, int n) {
+// rank -> value; nlev = number of levels of the enumeration the rank comes from (ranks are 0..nlev-1)
+struct Transform {
+  double off, scale; bool top_inf, bottom_inf;
+  double operator()(int rank, int nlev) const {
+    if (top_inf && rank == nlev - 1) return kInf;
+    if (bottom_inf && rank == 0) return -kInf;
+    return (rank + off) * scale;
+  }
+  std::string str() const { return "(rank+" + vh::str(off) + ")*" + vh::str(scale) + (top_inf ? ",top=+inf" : "") + (bottom_inf ? ",bottom=-inf" : ""); }
+};
+Transform pick_transform(vh::Case& c, int n) {
+  vh::Rng& r = c.rng;
   static const double scales[] = {1, 0.5, 4, 0.125};
-  return Transform{(double)r.range(-n, 1), scales[r.below(4)]};
+  Transform t{(double)r.range(-n, 1), scales[r.below(4)], false, false};
+  if (r.chance(1, 4)) { int m = (int)r.below(3); t.top_inf = (m != 1); t.bottom_inf = (m != 0); c.count("blocks.with_infinite_levels"); }
+  return t;
 }
 
-void exh_line(vh::Case& c, int n) {
+// nlev_fixed: 0 for weak orders (the ranks of an input are 0..k-1), L for level maps
+template <class Enumerator>
+void exh_line_impl(vh::Case& c, int n, const Enumerator& W, int nlev_fixed, const char* family) {
   Ctx X(c);
-  Weak_orders W(n, prefix_len(n));
   const long total = W.num_blocks(), blk = scramble(c.k, total);
   if (c.k >= total) { c.count("skip.block_out_of_range"); return; }
-  Transform tr = pick_transform(c.rng, n);
-  X.header = "line n=" + vh::str(n) + " block=" + vh::str(blk) + " of " + vh::str(total) + " value=(rank+" + vh::str(tr.off) + ")*" + vh::str(tr.scale) + "\n";
+  Transform tr = pick_transform(c, n);
+  X.header = std::string("line n=") + vh::str(n) + " " + family + " block=" + vh::str(blk) + " of " + vh::str(total) + " value=" + tr.str() + "\n";
   c.log(X.header.substr(0, X.header.size() - 1));
   long with_interval = 0, sampled = 0;
+  const std::string wo = nlev_fixed ? "level_maps" : "weak_orders";
   long cnt = W.for_each_in_block(blk, [&](const std::vector<int>& lv, int k) {
     std::vector<double> vals(n);
-    for (int i = 0; i < n; ++i) vals[i] = tr(lv[i]);
+    for (int i = 0; i < n; ++i) vals[i] = tr(lv[i], nlev_fixed ? nlev_fixed : k);
     std::string lvs(n, '0'); for (int i = 0; i < n; ++i) lvs[i] = (char)('0' + lv[i]);
     X.current_input("ranks=" + lvs);
     Input_txt txt{0, n, &vals};
@@ -48,69 +65,87 @@ void exh_line(vh::Case& c, int n) {
       std::vector<double> rk(n + 1, -1); for (int i = 0; i < n; ++i) rk[ord[i] + 1] = i;
       ok &= check_line(X, el, VI_less(), [&](const VI& x) { return (x.i >= 1 && x.i <= n) ? rk[x.i] : -2.0; },
                        [](const VI& x) { return x.i == 0; }, "value_index_pair", txt); }
-    c.count("weak_orders.line");
-    if (k < n) c.count("weak_orders.with_ties");
+    c.count(wo + ".line");
+    if (nlev_fixed) c.count(wo + ".line" + vh::str(n));
+    if (k < n) c.count(wo + ".with_ties");
     Expected E = expected_of(0, n, vals);
-    if (!E.offdiag.empty()) { ++with_interval; c.count("weak_orders.with_finite_interval");
+    if (!E.offdiag.empty()) { ++with_interval; c.count(wo + ".with_finite_interval");
       if (sampled < 32) { ++sampled; c.nontrivial(vh::hash_str(lvs, vh::hash_str("line"))); } }
     (void)ok;
   });
   c.count("blocks.line");
-  c.count(std::string("blocks.line") + vh::str(n));
-  if (with_interval) c.nontrivial(vh::hash_mix(vh::hash_str("lineblock"), (uint64_t)(n * 1000003L + blk)));
+  c.count(std::string("blocks.line") + vh::str(n) + (nlev_fixed ? "_lv" : ""));
+  if (with_interval) c.nontrivial(vh::hash_mix(vh::hash_str(nlev_fixed ? "lineblock_lv" : "lineblock"), (uint64_t)(n * 1000003L + blk)));
   vh::G().history = X.header;
   c.sample("{\"block\":\"" + vh::jesc(X.header) + "\",\"weak_orders\":" + vh::str(cnt) + ",\"with_finite_interval\":" + vh::str(with_interval) + "}");
 }
 
-template <class Index>
-long rect_block(Ctx& X, const Weak_orders& W, long blk, int r, int cN, const Transform& tr, long& with_interval, long& with_h1) {
+void exh_line(vh::Case& c, int n) { exh_line_impl(c, n, Weak_orders(n, prefix_len(n)), 0, "weak orders"); }
+// lines of 9..12 cells, 3 levels; 3^(n-6) blocks of 3^6 inputs.  Must match _LV in spec.py.
+void exh_line_lv(vh::Case& c, int n) { exh_line_impl(c, n, Level_maps(n, 3, n - 6), 3, "level maps"); }
+
+template <class Index, class Enumerator>
+long rect_block(Ctx& X, const Enumerator& W, int nlev_fixed, long blk, int r, int cN, const Transform& tr, long& with_interval, long& with_h1) {
   vh::Case& c = X.c;
   const int n = r * cN;
   long sampled = 0;
+  const std::string wo = nlev_fixed ? "level_maps" : "weak_orders";
+  const std::string shape = vh::str(r) + "x" + vh::str(cN);
   return W.for_each_in_block(blk, [&](const std::vector<int>& lv, int k) {
     std::vector<double> vals(n);
-    for (int i = 0; i < n; ++i) vals[i] = tr(lv[i]);
+    for (int i = 0; i < n; ++i) vals[i] = tr(lv[i], nlev_fixed ? nlev_fixed : k);
     std::string lvs(n, '0'); for (int i = 0; i < n; ++i) lvs[i] = (char)('0' + lv[i]);
     X.current_input("ranks(C order)=" + lvs);
     Input_txt txt{r, cN, &vals};
     Expected E = expected_of(r, cN, vals);
     const bool ok = check_rectangle<double, Index>(X, r, cN, vals, E, txt);
-    c.count("weak_orders.rect");
-    if (k < n) c.count("weak_orders.with_ties");
-    if (!ok) c.count("weak_orders.rect.violating");
+    c.count(wo + ".rect");
+    if (nlev_fixed) c.count(wo + ".rect" + shape);
+    if (k < n) c.count(wo + ".with_ties");
+    if (!ok) c.count(wo + ".rect.violating");
     if (r == 2 || cN == 2) { c.count("weak_orders.rect.side_of_2");
       if (shared_corner_min_not_last(r, cN, vals)) { c.count("weak_orders.rect.shared_corner_min_not_last");
         if (!ok) c.count("weak_orders.rect.violating_with_shared_corner_min_not_last"); } }
-    count_neighbour_patterns(c, r, cN, vals);
+    if (!nlev_fixed) count_neighbour_patterns(c, r, cN, vals);
     bool h1 = false; for (auto& i : E.offdiag) if (i.dim == 1) h1 = true;
-    if (h1) { ++with_h1; c.count("weak_orders.with_dim1_interval"); }
-    if (!E.offdiag.empty()) { ++with_interval; c.count("weak_orders.with_finite_interval");
+    if (h1) { ++with_h1; c.count(wo + ".with_dim1_interval"); }
+    if (!E.offdiag.empty()) { ++with_interval; c.count(wo + ".with_finite_interval");
       if (sampled < 32) { ++sampled; c.nontrivial(vh::hash_str(lvs, vh::hash_mix(vh::hash_str("rect"), r * 16 + cN))); } }
   });
 }
 
-void exh_rect(vh::Case& c, int r, int cN) {
+template <class Enumerator>
+void exh_rect_impl(vh::Case& c, int r, int cN, const Enumerator& W, int nlev_fixed, const char* family) {
   Ctx X(c);
   const int n = r * cN;
-  Weak_orders W(n, prefix_len(n));
   const long total = W.num_blocks(), blk = scramble(c.k, total);
   if (c.k >= total) { c.count("skip.block_out_of_range"); return; }
-  Transform tr = pick_transform(c.rng, n);
+  Transform tr = pick_transform(c, n);
   const int it = (int)(blk % 3);
   static const char* itn[3] = {"unsigned", "size_t", "int"};
-  X.header = "rect " + vh::str(r) + "x" + vh::str(cN) + " block=" + vh::str(blk) + " of " + vh::str(total) + " Index=" + itn[it] +
-             " value=(rank+" + vh::str(tr.off) + ")*" + vh::str(tr.scale) + "\n";
+  X.header = "rect " + vh::str(r) + "x" + vh::str(cN) + " " + family + " block=" + vh::str(blk) + " of " + vh::str(total) + " Index=" + itn[it] +
+             " value=" + tr.str() + "\n";
   c.log(X.header.substr(0, X.header.size() - 1));
   long with_interval = 0, with_h1 = 0, cnt = 0;
-  if (it == 0) cnt = rect_block<unsigned>(X, W, blk, r, cN, tr, with_interval, with_h1);
-  else if (it == 1) cnt = rect_block<std::size_t>(X, W, blk, r, cN, tr, with_interval, with_h1);
-  else cnt = rect_block<int>(X, W, blk, r, cN, tr, with_interval, with_h1);
+  if (it == 0) cnt = rect_block<unsigned>(X, W, nlev_fixed, blk, r, cN, tr, with_interval, with_h1);
+  else if (it == 1) cnt = rect_block<std::size_t>(X, W, nlev_fixed, blk, r, cN, tr, with_interval, with_h1);
+  else cnt = rect_block<int>(X, W, nlev_fixed, blk, r, cN, tr, with_interval, with_h1);
   c.count("blocks.rect");
-  c.count("blocks.rect" + vh::str(r) + "x" + vh::str(cN));
-  if (with_interval) c.nontrivial(vh::hash_mix(vh::hash_str("rectblock"), (uint64_t)((r * 16 + cN) * 1000003L + blk)));
+  c.count("blocks.rect" + vh::str(r) + "x" + vh::str(cN) + (nlev_fixed ? "_lv" : ""));
+  if (with_interval) c.nontrivial(vh::hash_mix(vh::hash_str(nlev_fixed ? "rectblock_lv" : "rectblock"), (uint64_t)((r * 16 + cN) * 1000003L + blk)));
   vh::G().history = X.header;
   c.sample("{\"block\":\"" + vh::jesc(X.header) + "\",\"weak_orders\":" + vh::str(cnt) + ",\"with_finite_interval\":" + vh::str(with_interval) +
            ",\"with_dim1_interval\":" + vh::str(with_h1) + "}");
+}
+
+void exh_rect(vh::Case& c, int r, int cN) { exh_rect_impl(c, r, cN, Weak_orders(r * cN, prefix_len(r * cN)), 0, "weak orders"); }
+// 3x4, 4x3: 3 levels, 3^4 blocks of 3^8 inputs.  4x4: 2 levels in the quick tier (2^4 blocks of 2^12), 3 levels in the
+// thorough tier (3^7 blocks of 3^9).  Must match _LV in spec.py.
+void exh_rect_lv(vh::Case& c, int r, int cN) {
+  const int n = r * cN;
+  const int L = (n == 16 && !c.thorough) ? 2 : 3;
+  const int p = (n == 16) ? (c.thorough ? 7 : 4) : 4;
+  exh_rect_impl(c, r, cN, Level_maps(n, L, p), L, "level maps");
 }
 
 }  // namespace
@@ -129,4 +164,11 @@ VH_CONFIG("rect3x2", [](vh::Case& c) { exh_rect(c, 3, 2); });
 VH_CONFIG("rect2x4", [](vh::Case& c) { exh_rect(c, 2, 4); });
 VH_CONFIG("rect4x2", [](vh::Case& c) { exh_rect(c, 4, 2); });
 VH_CONFIG("rect3x3", [](vh::Case& c) { exh_rect(c, 3, 3); });
+VH_CONFIG("line9_lv", [](vh::Case& c) { exh_line_lv(c, 9); });
+VH_CONFIG("line10_lv", [](vh::Case& c) { exh_line_lv(c, 10); });
+VH_CONFIG("line11_lv", [](vh::Case& c) { exh_line_lv(c, 11); });
+VH_CONFIG("line12_lv", [](vh::Case& c) { exh_line_lv(c, 12); });
+VH_CONFIG("rect3x4_lv", [](vh::Case& c) { exh_rect_lv(c, 3, 4); });
+VH_CONFIG("rect4x3_lv", [](vh::Case& c) { exh_rect_lv(c, 4, 3); });
+VH_CONFIG("rect4x4_lv", [](vh::Case& c) { exh_rect_lv(c, 4, 4); });
 VH_MAIN()
